@@ -18,6 +18,8 @@ def gen_scenario(rng):
         env0["PATH"] = "/usr/bin::/opt/x/bin:/usr/bin:/bin:"
     if rng.random() < 0.3:
         env0["LD_LIBRARY_PATH"] = "/usr/lib"
+    if rng.random() < 0.3:
+        env0["XLIST"] = "/pre/x;/pre/y"
     return {"world": w, "requests": reqs + [last], "env0": env0}
 
 
